@@ -968,8 +968,10 @@ static int chunkqueue_to_tempfiles(chunkqueue * const restrict dest, log_error_s
     chunkqueue src = *dest; /*(copy struct)*/
     dest->first = dest->last = NULL;
     dest->bytes_in -= cqlen;
-    if (0 == chunkqueue_steal_with_tempfiles(dest, &src, cqlen, errh))
+    if (0 == chunkqueue_steal_with_tempfiles(dest, &src, cqlen, errh)) {
+        chunkqueue_release_chunks(&src); /*(0-length chunks may remain)*/
         return 0;
+    }
     else {
         const int errnum = errno;
         chunkqueue_release_chunks(&src);
